@@ -38,5 +38,10 @@ def tasks(ctx):
     return filter_tasks(ts)
 
 
+# components whose representation invariants the lemmas above assume in every reachable state (engine/closure.py adds
+# the preservation obligations of all their functions)
+tasks.invariant_packages = ('interrupts',)
+
+
 def run(tier, seed):
     return run_property("C05", tasks, "proof", tier, seed, BASE_ASSUME + ["spec/sm83.py is the oracle for the instruction executed under the halt bug"], TRUSTED)
